@@ -15,6 +15,9 @@ func c12(c *Ctx) {
 	// the uniqueness probe of doUpsert and the emptiness probe of CREATE UNIQUE INDEX are prefix lookups of the store:
 	// a tombstone in front of a live entry must not end them (analysis shared with C04.4)
 	c04PrefixLookupContinues(c, "C12.10/unique-lookup-skips-tombstones")
+	// primary-key and UNIQUE probes compare encoded keys: two TIMESTAMP values that are equal as stored (microseconds)
+	// must have equal keys, so every Timestamp value enters the engine truncated (analysis shared with C15.4)
+	c15TimestampNormalised(c, "C12.11/timestamp-key-equals-stored-value")
 	sink := callTo(sqlTxT + "doUpsert")
 	check := callTo("embedded/sql.checkConstraints")
 	callers := map[*ssa.Function]bool{}
